@@ -343,7 +343,7 @@ THOROUGH_FS = []
 
 RULES = [
     ("TYPE-TABLE", rule_type_table, 7 * 6),
-    ("VIEWS", rule_views, 5),
+    ("VIEWS", rule_views, 3),
     ("NO-LOOKALIKE", rule_nolookalike, 7 * 6),
     ("SERDE-NAMES", rule_serde, 7 * 2 + 2),
 ]
